@@ -74,6 +74,52 @@ def split_phases(lines):
 IGNORE_FIELDS = {"strm", "vtod_typ"}
 
 
+def shift_meaning(spec):
+    """(days, business days, towards-Friday, fixed-direction) of a SHIFT value, read the way the README spells them out:
+    N days; NB business days; a sign on 0B gives the direction; NB+ / -NB- say that the move off a weekend does not count"""
+    d = b = 0
+    back = fixed = False
+    i, n = 0, len(spec)
+    while True:
+        m = re.match(r"\s*([+-]?\d*)", spec[i:])
+        num = m.group(1)
+        negz = spec[i:i + 1] == "-"
+        tmp = int(num) if re.search(r"\d", num) else 0
+        i += m.end()
+        c = spec[i:i + 1]
+        i += 1
+        if c in ("b", "B"):
+            while True:
+                c = spec[i:i + 1]
+                i += 1
+                if c in ("", ";"):
+                    b += tmp
+                    break
+                if c == "+":
+                    fixed = fixed or tmp >= 0
+                    continue
+                if c == "-":
+                    fixed = fixed or tmp < 0
+                    negz = negz or tmp == 0
+                    continue
+                if c == ",":
+                    b += tmp
+                    break
+                return None
+            if c == ",":
+                continue
+            back = b < 0 or (b == 0 and negz)
+            fixed = fixed or b == 0
+            return (d, abs(b), back, fixed)
+        if c == ",":
+            d += tmp
+            continue
+        if c in ("", ";"):
+            d += tmp
+            return (d, 0, False, False)
+        return None
+
+
 def cmp_fields(exp, got, what):
     """exp/got: dicts of field -> value; returns list of (field, expected, observed)"""
     diffs = []
@@ -91,7 +137,7 @@ def cmp_fields(exp, got, what):
 
 def field_case(srv, part, rng):
     """(1) README mapping"""
-    data, model = calgen.gen_calendar(rng, opts={"cheap_rules": True, "long_uids": True})
+    data, model = calgen.gen_calendar(rng, opts={"cheap_rules": True, "long_uids": True, "vtodo": True})
     part.evaluations += 1
     lines = srv.case("fields=1 budget=10000", data)
     tasks = parse_dump(lines)
@@ -279,6 +325,15 @@ def ser_case(srv, part, rng, tier, forced=None):
     for fld, e, g in cmp_fields(orig[0]["fields"], rep[0]["fields"], "ser"):
         part.violation("ser/attr/%s" % fld, dict(wit, field=fld, expected=e, observed=g,
                                                 summary="attribute %s is %r before and %r after writing the task out and reading it back" % (fld, e, g)))
+    # the SHIFT of a (single) rule is written as it was read: sign (also of -0B, weekend back to Friday), amount, B, suffix
+    srules = [l.split(":", 1)[1] for l in ser.decode("latin1").split("\n") if l.startswith("RRULE:")]
+    if len(meta["rules"]) == 1 and len(srules) == 1 and "SHIFT=" in meta["rules"][0]:
+        tok = lambda r: ([p[6:] for p in r.strip().split(";") if p.startswith("SHIFT=")] or [""])[0]
+        a, b = tok(meta["rules"][0]), tok(srules[0])
+        part.count("shift_spellings_compared")
+        if shift_meaning(a) != shift_meaning(b):
+            part.violation("ser/shift-spelling", dict(wit, summary="SHIFT=%s %s is written out as SHIFT=%s %s"
+                                                      % (a, shift_meaning(a), b or "(nothing)", shift_meaning(b))))
     # remaining occurrences with durations
     r0 = r_occ.get(0, [])
     part.count("occurrences_compared", min(len(a0), len(r0)))
